@@ -81,7 +81,8 @@ void harness (void)
       {
         int posted = 0;
         for (i = 0; i < NP; i++) if (i < IN.n && !IN.is_wake[i] && IN.key[i] == ev[j].completion_key && IN.data[i] == (uint32_t) ev[j].bytes_transferred) posted = 1;
-        VERIF_ASSERT ("C19.no_invented_completion", posted);
+        if (IN.n >= 2) VERIF_ASSERT ("C19.no_invented_completion_when_posts_pile_up", posted);   /* summed posts read back as one garbled event */
+        else VERIF_ASSERT ("C19.no_invented_completion", posted);
       }
   if (ncomp == 2) VERIF_WITNESS ("two_completions");
   if (ncomp == 1 && nwake == 1) VERIF_WITNESS ("completion_and_wakeup");
